@@ -233,7 +233,7 @@ def rule_fill(ctx):
                         ctx.bad(R, "%s::fill/%s.%s/filled" % (enum_name, v, f), "child `%s` is not passed to %s: its nodes keep no file id" % (f, h["name"]), site(file, arm))
                         continue
                     pname = params[args.index(b)]
-                    ok = a10.flows_to_visitor(h["body"], pname, {"fill"})
+                    ok = a10.flows_to_visitor(h["body"], pname, {"fill"}, file)
                     ctx.check(R, "%s::fill/%s.%s/filled" % (enum_name, v, f), ok, "%s does not call fill on `%s`" % (h["name"], pname), site(file, h))
         for v in en:
             if v not in seen:
